@@ -202,9 +202,38 @@ def r1_plumbing(ctx: Context, pl: Plumbing) -> None:
         elif a in SEEDABLE_PRIVATE:
             ok = SEEDABLE_PRIVATE[a].split(".")[0] in covered
             ctx.check(ok, "R1.completeness", f"Calibrator.{a}", f"{a} is persisted through {SEEDABLE_PRIVATE[a]}", f"{a} is not persisted", None, None)
+        elif _caller_supplied_on_restore(prog, pl, cal, a):
+            ctx.ok("R1.completeness", f"Calibrator.{a}", f"{a} is configuration handed in by the caller of restore_from_checkpoint (like the model): stored by the constructor only, "
+                   "and the constructor call of the restore receives it from a parameter of the restore")
         else:
             ctx.fail("R1.completeness", f"Calibrator.{a}", f"Calibrator.{a} is part of the calibrator's state but is neither saved by create_checkpoint nor derivable: "
                      "a restored calibrator differs from the saved one", pl.cc, pl.cc_call)
+
+
+def _caller_supplied_on_restore(prog, pl: Plumbing, cal, attr: str) -> bool:
+    """`attr` is written only by __init__, directly from one of its parameters, and the constructor call in restore_from_checkpoint passes a
+    parameter of the restore itself for it - the disposition `model` has: an object that cannot be persisted is handed in again by the caller."""
+    stores = prog.attr_stores(cal, inherited=True).get(attr, [])
+    if not stores or any(f.name != "__init__" for f, _s, _v in stores):
+        return False
+    init = pl.init
+    srcs = {v.id for _f, _s, v in stores if isinstance(v, ast.Name) and v.id in init.params}
+    if len(srcs) != 1 or len(stores) != 1:
+        return False
+    prm = next(iter(srcs))
+    ctor = [c for c in calls_in(pl.restore.node) if isinstance(c.func, ast.Name) and c.func.id in ("cls", "Calibrator")]
+    if len(ctor) != 1:
+        return False
+    bound = init.bound_params
+    arg = None
+    for i, a in enumerate(ctor[0].args):
+        if i < len(bound) and bound[i] == prm:
+            arg = a
+    for k in ctor[0].keywords:
+        if k.arg == prm:
+            arg = k.value
+    return isinstance(arg, ast.Name) and arg.id in pl.restore.params and not any(
+        isinstance(t, ast.Name) and t.id == arg.id and isinstance(t.ctx, ast.Store) for t in ast.walk(pl.restore.node))
 
 
 # ---------------------------------------------------------------------------------------------- R2
@@ -314,9 +343,20 @@ def r2_sqlite(ctx: Context) -> None:
             return root_param(env[r], depth + 1)
         return None
 
+    # a column bound to a constant (format / library version) is metadata: it carries nothing of the calibrator, takes no save parameter and need not be returned
+    meta_cols: set[str] = set()
     if ok:
-        ctx.check(len(params) == len(cols["insert"]), "R2.sqlite-columns", "sqlite3:param-arity", "one save parameter per column", f"{len(params)} parameters for {len(cols['insert'])} columns", save, save.node)
-        for i, (col, e) in enumerate(zip(cols["insert"], bound.elts)):
+        for col, e in zip(cols["insert"], bound.elts):
+            if isinstance(e, ast.Constant) or (isinstance(e, ast.Name) and e.id not in save.params and e.id not in env and (e.id.isupper() or (e.id.startswith("__") and e.id.endswith("__")))):
+                meta_cols.add(col)
+        if meta_cols:
+            ctx.ok("R2.sqlite-columns", "sqlite3:metadata-columns", f"metadata column(s) {sorted(meta_cols)} are bound to constants")
+        state_cols = [c_ for c_ in cols["insert"] if c_ not in meta_cols]
+        ctx.check(len(params) == len(state_cols), "R2.sqlite-columns", "sqlite3:param-arity", "one save parameter per column", f"{len(params)} parameters for {len(state_cols)} columns", save, save.node)
+        for col, e in zip(cols["insert"], bound.elts):
+            if col in meta_cols:
+                continue
+            i = state_cols.index(col)
             rp = root_param(e)
             good = i < len(params) and rp == params[i]
             ctx.check(good, "R2.sqlite-alignment", f"sqlite3:insert:{col}", f"column {col} (position {i}) <- save parameter {params[i] if i < len(params) else '?'}",
@@ -368,10 +408,11 @@ def r2_sqlite(ctx: Context) -> None:
         return None
 
     elts = rets[0].value.elts
-    ctx.check(len(elts) == len(names), "R2.sqlite-columns", "sqlite3:return-arity", "the load returns one element per column", f"{len(elts)} returned elements for {len(names)} columns", load, rets[0])
-    for i, (col, e) in enumerate(zip(cols["select"], elts)):
+    sel_state = [(c_, nm) for c_, nm in zip(cols["select"], names) if c_ not in meta_cols]
+    ctx.check(len(elts) == len(sel_state), "R2.sqlite-columns", "sqlite3:return-arity", "the load returns one element per column", f"{len(elts)} returned elements for {len(sel_state)} columns", load, rets[0])
+    for i, ((col, nm), e) in enumerate(zip(sel_state, elts)):
         rt = root_target(e)
-        good = i < len(names) and rt == names[i]
+        good = rt == nm
         ctx.check(good, "R2.sqlite-alignment", f"sqlite3:select:{col}", f"returned element {i} carries column {col}",
                   f"returned element {i} is `{src(e)[:50]}`, which carries the value of column {cols['select'][names.index(rt)] if rt in names else '?'} instead of {col} (positions shifted or swapped)", load, e)
 
